@@ -222,42 +222,7 @@ func rulesC11(e *Engine, r *Report) {
 
 	// ---------------------------------------------------------------- R11.3
 	r.Rule("R11.3", "Split and Remove conserve bytes: Split sums end-beg of exactly the parts from n on, gives that sum to the new payload (capacity and bytes) together with parts[n:], keeps parts[:n] and subtracts the same sum from its own count; it refuses n outside 1..len-1; Remove subtracts end-beg of the very part it removes")
-	if fn := needFn(e, r, "R11.3", "payload.(*Bin).Split"); fn != nil {
-		idx := "phi((phi# + 1)|p1)"
-		nb := "phi((phi# + (p0.parts[" + idx + "].end - p0.parts[" + idx + "].beg))|0)"
-		nbin := "assert(*payload.Bin)(call(payload.NewBin)(" + nb + ", p0.opener, p0.renamer))"
-		for _, c := range []struct{ what, p string }{
-			{"new.bytes ← Σ(end-beg) over parts[n:]", "store(" + nbin + ".bytes = " + nb + ")"},
-			{"new.capacity ← the same sum", "store(" + nbin + ".capacity = " + nb + ")"},
-			{"new.parts ← parts[n:]", "store(" + nbin + ".parts = p0.parts[p1:])"},
-			{"old.parts ← parts[:n]", "store(p0.parts = p0.parts[:p1])"},
-			{"old count reduced by the same sum", "store(p0.capacity = (p0.bytes - " + nb + "))"},
-			{"old.bytes ← the reduced count", "store(p0.bytes = p0.capacity)"},
-		} {
-			got := e.findInstrs(fn, c.p, false)
-			r.Check(len(got) == 1, "R11.3", "payload.(*Bin).Split: "+c.what, e.Pos(fn.Pos()), "expected exactly one "+shorten(c.p), 1)
-		}
-		// order: new.parts taken before old.parts is cut; old.capacity computed before old.bytes overwritten
-		a := e.findInstrs(fn, "store("+nbin+".parts = p0.parts[p1:])", false)
-		b := e.findInstrs(fn, "store(p0.parts = p0.parts[:p1])", false)
-		c := e.findInstrs(fn, "store(p0.capacity = §)", false)
-		d := e.findInstrs(fn, "store(p0.bytes = p0.capacity)", false)
-		okOrd := len(a) == 1 && len(b) == 1 && len(c) == 1 && len(d) == 1 && precedes(a[0], b[0]) && precedes(c[0], d[0])
-		r.Check(okOrd, "R11.3", "payload.(*Bin).Split: tail taken before the head is cut; reduced count computed before it is stored", e.Pos(fn.Pos()),
-			"the order of the updates makes one of them read an already overwritten field", 4)
-		// the summation loop covers n..len-1: condition idx < len(parts)
-		lp := e.ifEdges(fn, "("+idx+" < builtin(len)(p0.parts))")
-		r.Check(len(lp) >= 1, "R11.3", "payload.(*Bin).Split: the sum runs from n to the last part", e.Pos(fn.Pos()), "the summation loop is no longer `for i := n; i < len(parts); i++`", 1)
-		Instrs(fn, func(in ssa.Instruction) {
-			rt, ok := in.(*ssa.Return)
-			if !ok || len(rt.Results) != 1 || e.Canon(rt.Results[0]) == "nil" || rt.Block().Comment == "recover" {
-				return
-			}
-			conds := e.domConds(rt.Block())
-			r.Check(hasStr(conds, "(1 <= p1)") && hasStr(conds, "(p1 < builtin(len)(p0.parts))"), "R11.3", "payload.(*Bin).Split: splits only for 1 <= n < len(parts)", e.InstrPos(rt),
-				"a split at 0 or at/after the end is performed", 1, conds...)
-		})
-	}
+	e.checkSplit(r, "R11.3")
 	if fn := needFn(e, r, "R11.3", "payload.(*Bin).Remove"); fn != nil {
 		got := e.findInstrs(fn, "store(p0.bytes = (p0.bytes - (assert(*payload.part)(p1).end - assert(*payload.part)(p1).beg)))", false)
 		r.Check(len(got) == 1, "R11.3", "payload.(*Bin).Remove: bytes -= end-beg of the part removed", e.Pos(fn.Pos()), "the payload's byte count is not reduced by the extent of the removed part", 1)
@@ -387,6 +352,48 @@ func (e *Engine) checkRecoverAllocate(r *Report, rule string) {
 				}
 				r.Check(okE, rule, "client.(*recoverFile).Allocate: length per branch (desired inside the range | End-offset at its end)", e.InstrPos(rt), "a branch returns a length that does not fit its condition", len(ph.Edges), facts...)
 			}
+		})
+	}
+}
+
+// checkSplit: Bin.Split(n) keeps parts[:n] and hands out parts[n:] with
+// exactly their bytes (shared by R11.3 and R03.7: the handed-out tail is what
+// the sender transmits again after a partly accepted payload).
+func (e *Engine) checkSplit(r *Report, rule string) {
+	if fn := needFn(e, r, rule, "payload.(*Bin).Split"); fn != nil {
+		idx := "phi((phi# + 1)|p1)"
+		nb := "phi((phi# + (p0.parts[" + idx + "].end - p0.parts[" + idx + "].beg))|0)"
+		nbin := "assert(*payload.Bin)(call(payload.NewBin)(" + nb + ", p0.opener, p0.renamer))"
+		for _, c := range []struct{ what, p string }{
+			{"new.bytes ← Σ(end-beg) over parts[n:]", "store(" + nbin + ".bytes = " + nb + ")"},
+			{"new.capacity ← the same sum", "store(" + nbin + ".capacity = " + nb + ")"},
+			{"new.parts ← parts[n:]", "store(" + nbin + ".parts = p0.parts[p1:])"},
+			{"old.parts ← parts[:n]", "store(p0.parts = p0.parts[:p1])"},
+			{"old count reduced by the same sum", "store(p0.capacity = (p0.bytes - " + nb + "))"},
+			{"old.bytes ← the reduced count", "store(p0.bytes = p0.capacity)"},
+		} {
+			got := e.findInstrs(fn, c.p, false)
+			r.Check(len(got) == 1, rule, "payload.(*Bin).Split: "+c.what, e.Pos(fn.Pos()), "expected exactly one "+shorten(c.p), 1)
+		}
+		// order: new.parts taken before old.parts is cut; old.capacity computed before old.bytes overwritten
+		a := e.findInstrs(fn, "store("+nbin+".parts = p0.parts[p1:])", false)
+		b := e.findInstrs(fn, "store(p0.parts = p0.parts[:p1])", false)
+		c := e.findInstrs(fn, "store(p0.capacity = §)", false)
+		d := e.findInstrs(fn, "store(p0.bytes = p0.capacity)", false)
+		okOrd := len(a) == 1 && len(b) == 1 && len(c) == 1 && len(d) == 1 && precedes(a[0], b[0]) && precedes(c[0], d[0])
+		r.Check(okOrd, rule, "payload.(*Bin).Split: tail taken before the head is cut; reduced count computed before it is stored", e.Pos(fn.Pos()),
+			"the order of the updates makes one of them read an already overwritten field", 4)
+		// the summation loop covers n..len-1: condition idx < len(parts)
+		lp := e.ifEdges(fn, "("+idx+" < builtin(len)(p0.parts))")
+		r.Check(len(lp) >= 1, rule, "payload.(*Bin).Split: the sum runs from n to the last part", e.Pos(fn.Pos()), "the summation loop is no longer `for i := n; i < len(parts); i++`", 1)
+		Instrs(fn, func(in ssa.Instruction) {
+			rt, ok := in.(*ssa.Return)
+			if !ok || len(rt.Results) != 1 || e.Canon(rt.Results[0]) == "nil" || rt.Block().Comment == "recover" {
+				return
+			}
+			conds := e.domConds(rt.Block())
+			r.Check(hasStr(conds, "(1 <= p1)") && hasStr(conds, "(p1 < builtin(len)(p0.parts))"), rule, "payload.(*Bin).Split: splits only for 1 <= n < len(parts)", e.InstrPos(rt),
+				"a split at 0 or at/after the end is performed", 1, conds...)
 		})
 	}
 }
